@@ -6,7 +6,8 @@
 (* Observation shaped.  It knows nothing about fall-back tags, caches,     *)
 (* locks or the referrers API; it sees only                                *)
 (*   call / ret   a ManifestPut or a referrer-aware ManifestDelete of an   *)
-(*                artifact was issued / returned (calls may overlap),      *)
+(*                artifact was issued / returned (calls may overlap); a    *)
+(*                "plain" call pushes a manifest that has no subject,      *)
 (*   stored       FACT logged by the harness at a quiescent point: which   *)
 (*                artifact manifests are in raw storage (simreg's manifest *)
 (*                map, or the blob files of the layout),                   *)
@@ -55,7 +56,8 @@ First(checks) == IF bad # "" THEN bad
                       THEN checks[CHOOSE i \in 1..Len(checks) : checks[i][1] /\ \A j \in 1..(i-1) : ~checks[j][1]][2]
                       ELSE ""
 
-ApplyOp(st, o) == IF o.k = "put" THEN st \cup {o.a} ELSE st \ {o.a}
+\* a "plain" call pushes a manifest without a subject: no referrer comes or goes
+ApplyOp(st, o) == CASE o.k = "put" -> st \cup {o.a} [] o.k = "del" -> st \ {o.a} [] OTHER -> st
 Step1(P, pd) == P \cup {[st |-> ApplyOp(c.st, pd[i]), ap |-> c.ap \cup {i}] :
                         <<c, i>> \in {x \in P \X DOMAIN pd : x[2] \notin x[1].ap}}
 RECURSIVE CloseN(_, _, _)
@@ -76,7 +78,7 @@ PCall(id, k, a) ==
   /\ poss' = Close(poss, pd)
   /\ quiet' = FALSE
   /\ bad' = First(<< <<id \in DOMAIN pend, "protocol-call-twice">>,
-                    <<k \notin {"put", "del"} \/ a \notin Arts, "protocol-bad-call">> >>)
+                    <<k \notin {"put", "del", "plain"} \/ (k # "plain" /\ a \notin Arts), "protocol-bad-call">> >>)
   /\ UNCHANGED <<subj, mode, cur>>
 
 PRet(id, res) ==
